@@ -38,6 +38,12 @@ UNITS = {
         'engine': 'kani', 'crate': 'toml_edit', 'harnesses': ['k7s_inf', 'k7s_nan'], 'complete': True, 'timeout': 600,
         'title': 'special-float: the six spellings [+-](inf|nan) through the real parser: value class and sign bit (complete)',
     },
+    'K11f': {
+        'engine': 'kani', 'crate': 'toml_write', 'harnesses': ['k11_f64_nan_and_zero'], 'complete': False,
+        'bound': 'four representative inputs: NaN and zero with either sign (the branch conditions depend on class and sign only)',
+        'timeout': 600,
+        'title': 'toml_write f64 writer special cases: nan / -nan / 0.0 / -0.0 carry the sign (bounded: representatives)',
+    },
     'K6e': {
         'engine': 'kani', 'crate': 'toml_edit',
         'harnesses': ['k6_edit_serialize_u64', 'k6_edit_serialize_i64', 'k6_edit_serialize_narrow',
@@ -146,7 +152,7 @@ UNITS = {
 PLAN = {
     'C10': {'quick': ['V1', 'K1'], 'thorough': ['V1', 'K1']},
     'C04': {'quick': ['V1', 'V3', 'V4', 'V5', 'V6', 'V7', 'K1', 'K12'], 'thorough': ['V1', 'V3', 'V4', 'V5', 'V6', 'V7', 'K1', 'K12', 'K8t', 'K3t', 'K5']},
-    'C11': {'quick': ['K7', 'K7s', 'K6e', 'K6t', 'K6d', 'V8'], 'thorough': ['K7', 'K7s', 'K6e', 'K6t', 'K6d', 'V8']},
+    'C11': {'quick': ['K7', 'K7s', 'K6e', 'K6t', 'K6d', 'V8', 'K11f'], 'thorough': ['K7', 'K7s', 'K6e', 'K6t', 'K6d', 'V8', 'K11f']},
     'C01': {'quick': ['K1', 'K7', 'V4', 'V8', 'K2'], 'thorough': ['K1', 'K7', 'V4', 'V8', 'K2', 'K2y', 'K5']},
     'C02': {'quick': ['K2', 'K7s', 'V5', 'V7', 'V8'], 'thorough': ['K2', 'K2y', 'K7s', 'V5', 'V7', 'V8', 'K5']},
     'C05': {'quick': ['V3', 'K12'], 'thorough': ['V3', 'K12']},
